@@ -14,4 +14,4 @@ INIT Init
 NEXT Next
 VIEW View
 CONSTRAINT EmitStep
-INVARIANTS TypeOK OnlyAuthentic NoVerifierRejects RealNotBypassed RejectKeepsState Complete Monotone CacheIsLastAccepted KnownIsPresented EmitFan
+INVARIANTS TypeOK OnlyAuthentic NoVerifierRejects RealNotBypassed RejectKeepsState Complete Monotone CacheIsLastAccepted KnownIsPresented FloorIsOfColdKey ProbesTellFloor CounterFloorSurvivesChurn EmitFan
